@@ -432,3 +432,77 @@ class MergeFilterPushdown(_MergeBase):
 
 
 SPECS = [RenamedBySuffix(), FilterPassthroughAvailable(), MergeFilterPushdown()]
+
+
+class SetIndexFilterPassthrough(Spec):
+    """SetIndex._filter_passthrough_available: a filter may move below set_index only if (a) the new index is a column of the
+    frame (a separate series would have to be filtered along with the frame), (b) the generic consumer analysis allows it,
+    and (c) NO node of the predicate is an `Index` expression: the index the predicate talks about is the one set_index
+    creates, it does not exist below."""
+
+    file, qualname, props = "dask_expr/_shuffle.py", "SetIndex._filter_passthrough_available", ["C03", "C01"]
+    case = {"other_is_expr": False}
+    assumptions = ["`p.walk()` enumerates every node of the predicate (dask_expr._core.Expr.walk: assumed); is_filter_pushdown_available is an unconstrained boolean here"]
+
+    def cases(self):
+        yield {"other_is_expr": False}
+        yield {"other_is_expr": True}
+
+    def make_inputs(self, ex, sym, fr):
+        n = sym.int("n_predicate_nodes", lo=1)
+        is_index = z3.Function("node_is_an_Index_expression", z3.IntSort(), z3.BoolSort())
+        nodes = Seq(n, lambda k: Obj(f"node[{k}]", {"k": zint(k)}, cls=None), "list")
+        pred = Obj("predicate", {"walk": contract_fn(lambda e, f: nodes)}, cls=("Expr",))
+        other = Obj("other-series", {}, cls=("Expr",)) if self.case["other_is_expr"] else z3.Const("index_column", Lab)
+        self._avail = sym.bool("is_filter_pushdown_available")
+        self._is_index = is_index
+        return {"self": Obj("self", {"_other": other}, cls=("Expr", "SetIndex")), "parent": Obj("parent", {"predicate": pred}, cls=("Expr", "Filter")), "dependents": Opaque("dependents"), "n": n}
+
+    def call(self, ex, fr, name, args, kwargs):
+        if name == "is_filter_pushdown_available":
+            return self._avail
+        return NotImplemented
+
+    def isinstance_hook(self, ex, fr, v, tname):
+        if isinstance(v, Obj) and "k" in v.attrs and tname == "Index":
+            return self._is_index(v.attrs["k"])
+        if isinstance(v, Obj) and v.cls is not None:
+            return tname in v.cls
+        return NotImplemented
+
+    def ensures(self):
+        other_expr = self.case["other_is_expr"]
+
+        def post(c, env, r):
+            if not c.symbolic:
+                return bool(r) == env["expected"]
+            k = fresh_int("k")
+            mentions = z3.Exists([k], z3.And(k >= 0, k < env["n"], self._is_index(k)))
+            return zbool(c.truth(r)) == z3.And(z3.BoolVal(not other_expr), self._avail, z3.Not(mentions))
+
+        return {"available-iff-index-is-a-column-and-predicate-does-not-mention-the-index": post}
+
+    def concrete_env(self, inputs):
+        return None
+
+    def concrete_inputs(self):
+        for other in ("column", "series"):
+            for pred in ("col", "index", "col&index"):
+                yield {"other": other, "pred": pred}
+
+    def run_concrete(self, inputs):
+        import pandas as pd
+
+        import dask_expr as dx
+        from dask_expr._core import collect_dependents
+
+        self.case = {"other_is_expr": inputs["other"] == "series"}
+        pdf = pd.DataFrame({"a": [3, 1, 2, 5, 4, 6], "b": [1, 2, 3, 4, 5, 6]})
+        df = dx.from_pandas(pdf, npartitions=2)
+        x = df.set_index("a") if inputs["other"] == "column" else df.set_index(7 - df.a)
+        q = {"col": lambda: x[x.b > 2], "index": lambda: x[x.index.to_series() > 2], "col&index": lambda: x[(x.b > 2) & (x.index.to_series() > 1)]}[inputs["pred"]]()
+        r = x.expr._filter_passthrough_available(q.expr, collect_dependents(q.expr))
+        return {"expected": inputs["other"] == "column" and inputs["pred"] == "col"}, r
+
+
+SPECS.append(SetIndexFilterPassthrough())
